@@ -43,6 +43,8 @@ def skeletons(tier):
             continue
         out.append({"id": "hist-" + "".join(map(str, lens)), "fam": "hist", "lens": list(lens), "params": {}})
     out.append({"id": "mp-2x2", "fam": "mp", "lists": [2, 2], "params": {}})
+    for n in ((2, 3) if tier == "quick" else (2, 3, 4)):
+        out.append({"id": f"df-{n}", "fam": "df", "rows": n, "params": {}})
     if tier == "thorough":
         out.append({"id": "mp-2x2x1", "fam": "mp", "lists": [2, 2, 1], "params": {}})
     for mpool in (False, True):
@@ -346,8 +348,41 @@ def run_indep(ctx):
         ctx.nontrivial(True)
 
 
+def run_df(ctx):
+    """create_from_df / encode_df / decode_df on a decoded frame whose strings are chosen by the solver"""
+    if ctx.mode == "sym":
+        from symx import sympd as pd
+        T = ctx.mods["hta.common.trace_symbol_table"].TraceSymbolTable
+    else:
+        import pandas as pd
+        from hta.common.trace_symbol_table import TraceSymbolTable as T
+    names, cats = [], []
+    for i in range(ctx.sk["rows"]):
+        for lst, tag in ((names, "n"), (cats, "c")):
+            ctx.sk.setdefault("vars", {})[f"{tag}{i}"] = ["int", 0, len(VOC) - 1]
+            v = ctx.val(f"${tag}{i}")
+            v = E.cur().concretize(v) if ctx.mode == "sym" and E.is_sym(v) else int(v)
+            lst.append(VOC[v] if tag == "n" else "cat_" + VOC[v])
+    df = pd.DataFrame({"name": list(names), "cat": list(cats), "dur": list(range(len(names)))})
+    st = T.create_from_df(df)
+    check_bijection(ctx, st, "df")
+    ctx.prove(set(st.get_sym_id_map()) == set(names) | set(cats), "df:table-holds-exactly-the-frame's-strings", None)
+    st.encode_df(df)
+    enc_n, enc_c = [int(x) for x in ctx.cells(df["name"])], [int(x) for x in ctx.cells(df["cat"])]
+    tab = st.get_sym_table()
+    ctx.prove([tab[i] for i in enc_n] == names and [tab[i] for i in enc_c] == cats, "df:encoded-ids-decode-to-the-strings",
+              {"names": names})
+    st.decode_df(df)
+    ctx.prove([str(x) for x in ctx.cells(df["s_name"])] == names and [str(x) for x in ctx.cells(df["s_cat"])] == cats,
+              "df:decode_df-restores-the-strings", None)
+    if ctx.mode == "sym" and len(set(names)) < len(names):
+        ctx.nontrivial(True)
+
+
 def run(ctx):
     fam = ctx.sk["fam"]
+    if fam == "df":
+        return run_df(ctx)
     if fam == "hist":
         run_hist(ctx)
     elif fam == "mp":
